@@ -21,7 +21,7 @@ from vf.common import Check, main_wrapper, run_shards
 
 from simpletal import simpleTAL, simpleTALES  # noqa: E402
 
-CASES = {"quick": 2500, "thorough": 22000}     # thorough: per shard, 16 shards
+CASES = {"quick": 4000, "thorough": 50000}     # thorough: per shard, 16 shards
 RISKY_KEYS = {
     "text-keyword": "C17/content-text-keyword",
     "exists-alt-unstripped": "C17/exists-nocall-alternation-first-path-unstripped",
